@@ -78,9 +78,18 @@ pub fn alphabet(level: Level, k: usize) -> Vec<Stmt> {
         }
         a.push(Stmt::If(var("I"), Branch::Line(last), Some(Branch::Line(first))));
         a.push(Stmt::IfGoto(i_lt_2(), last, None));
-        for s in [let_i_plus_1(), Stmt::Goto(first), Stmt::Gosub(last), Stmt::Return, Stmt::Next(vec![]), Stmt::End] {
+        for s in [
+            let_i_plus_1(),
+            Stmt::Goto(first),
+            Stmt::Gosub(last),
+            Stmt::Return,
+            Stmt::Next(vec![]),
+            Stmt::End,
+            Stmt::OnGoto(var("I"), vec![first, last]),
+        ] {
             a.push(Stmt::If(i_lt_2(), Branch::Stmts(vec![s.clone()]), None));
             a.push(Stmt::If(i_lt_2(), Branch::Stmts(vec![marker()]), Some(Branch::Stmts(vec![s.clone()]))));
+            a.push(Stmt::If(i_lt_2(), Branch::Stmts(vec![s.clone()]), Some(Branch::Stmts(vec![marker()]))));
         }
         a.push(Stmt::If(i_lt_2(), Branch::Stmts(vec![marker(), let_i_plus_1()]), None));
         a.push(for_("I", 2, 1, None));
@@ -119,6 +128,7 @@ pub fn alphabet(level: Level, k: usize) -> Vec<Stmt> {
         ] {
             a.push(Stmt::If(i_lt_2(), Branch::Stmts(vec![s.clone()]), None));
             a.push(Stmt::If(int(0), Branch::Stmts(vec![marker()]), Some(Branch::Stmts(vec![s.clone()]))));
+            a.push(Stmt::If(i_lt_2(), Branch::Stmts(vec![s.clone()]), Some(Branch::Stmts(vec![marker()]))));
         }
         for s in [let_i_plus_1(), Stmt::Gosub(last), Stmt::Next(vec![])] {
             a.push(Stmt::If(i_lt_2(), Branch::Stmts(vec![s.clone(), marker()]), None));
@@ -242,6 +252,128 @@ impl Sweep for ProgSweep {
             }
             if let Some(mut p) = compose(&stmts, mask, 10, 10) {
                 assign_markers(&mut p);
+                (self.judge)(&p, ctx);
+                if ctx.done() {
+                    return;
+                }
+            }
+        }
+    }
+}
+
+// ------------------------------------------------------------------ skeletons
+
+fn lit_line(num: u16, stmts: Vec<Stmt>) -> Line {
+    Line { num, stmts }
+}
+fn let_(v: &str, e: Expr) -> Stmt {
+    Stmt::Let(LVal::Var(v.into()), e)
+}
+
+/// Five fixed control-flow skeletons (DESIGN.md §2.1) with two holes each.
+/// Returns None when a filling is not a legal line (an IF must end its list).
+pub fn skeleton(which: usize, h1: &Stmt, h2: &Stmt) -> Option<Prog> {
+    let i_plus = let_i_plus_1();
+    let lines = match which {
+        // subroutine called from a loop
+        0 => {
+            if h1.must_end_line() || h2.must_end_line() {
+                return None;
+            }
+            vec![
+                lit_line(10, vec![for_("I", 1, 2, None), Stmt::Gosub(30), Stmt::Next(vec![])]),
+                lit_line(20, vec![marker(), Stmt::End]),
+                lit_line(30, vec![h1.clone(), h2.clone(), Stmt::Return]),
+            ]
+        }
+        // loop left early by GOTO and re-entered
+        1 => {
+            if h1.must_end_line() || h2.must_end_line() {
+                return None;
+            }
+            vec![
+                lit_line(10, vec![for_("I", 1, 3, None), h1.clone(), Stmt::If(bin(BinOp::Eq, var("I"), int(2)), Branch::Line(30), None)]),
+                lit_line(20, vec![Stmt::Next(vec![]), marker(), Stmt::End]),
+                lit_line(30, vec![h2.clone(), marker(), Stmt::Goto(20)]),
+            ]
+        }
+        // nested FOR with shared NEXT
+        2 => {
+            if h2.must_end_line() {
+                return None;
+            }
+            vec![
+                lit_line(10, vec![for_("I", 1, 2, None), for_("J", 1, 2, None), h1.clone()]),
+                lit_line(20, vec![h2.clone(), Stmt::Next(vec!["J".into(), "I".into()])]),
+                lit_line(30, vec![marker()]),
+            ]
+        }
+        // WHILE containing IF..ELSE
+        3 => {
+            if h1.must_end_line() {
+                return None;
+            }
+            vec![
+                lit_line(
+                    10,
+                    vec![
+                        Stmt::While(bin(BinOp::Lt, var("I"), int(3))),
+                        i_plus.clone(),
+                        Stmt::If(bin(BinOp::Eq, var("I"), int(2)), Branch::Stmts(vec![h1.clone()]), Some(Branch::Stmts(vec![h2.clone()]))),
+                    ],
+                ),
+                lit_line(20, vec![marker(), Stmt::Wend]),
+                lit_line(30, vec![marker()]),
+            ]
+        }
+        // ON..GOSUB dispatcher
+        _ => {
+            if h1.must_end_line() || h2.must_end_line() {
+                return None;
+            }
+            vec![
+                lit_line(
+                    10,
+                    vec![
+                        i_plus.clone(),
+                        Stmt::OnGosub(var("I"), vec![30, 40]),
+                        h1.clone(),
+                        Stmt::If(bin(BinOp::Lt, var("I"), int(3)), Branch::Line(10), None),
+                    ],
+                ),
+                lit_line(20, vec![marker(), Stmt::End]),
+                lit_line(30, vec![h2.clone(), Stmt::Return]),
+                lit_line(40, vec![marker(), Stmt::Return]),
+            ]
+        }
+    };
+    let mut p = Prog { lines };
+    assign_markers(&mut p);
+    Some(p)
+}
+
+pub const SKELETONS: usize = 5;
+
+/// Every two-statement filling of the holes of every skeleton.
+pub struct SkeletonSweep {
+    pub label: String,
+    pub level: Level,
+    pub judge: Judge,
+}
+
+impl Sweep for SkeletonSweep {
+    fn name(&self) -> String {
+        format!("{}-skeletons-{}", self.label, self.level.name())
+    }
+    fn shards(&self) -> usize {
+        SKELETONS * alphabet(self.level, 3).len()
+    }
+    fn run_shard(&self, shard: usize, ctx: &mut Ctx) {
+        let a = alphabet(self.level, 3);
+        let which = shard / a.len();
+        let h1 = &a[shard % a.len()];
+        for h2 in &a {
+            if let Some(p) = skeleton(which, h1, h2) {
                 (self.judge)(&p, ctx);
                 if ctx.done() {
                     return;
